@@ -371,6 +371,55 @@ theorem observers_padded_any_order (ops obs : List Op) (hobs : ∀ o ∈ obs, Is
   · exact (read_order_irrelevant _ obs hobs .natypes i).trans (observer_closed_form _ .natypes i nt hi hnt)
   · exact (read_order_irrelevant _ obs hobs .atypes i).trans (observer_closed_form _ .atypes i nt hi hnt)
 
+/-- in a state satisfying the invariant `atoms.natypes` of every system is defined as soon as the atoms'
+    `atype` column is not empty (the only way the real `natypes` raises on a reachable state is
+    `np.min` of an empty array): the hypothesis `ntOf … = .ok nt` of the theorems above is then met. -/
+theorem inv_ntOf_ok (s : State) (h : Inv s) (i : Nat) (hi : i < s.syss.length)
+    (hne : ∀ a, (s.obj (s.sys i).atoms).find "atype" = some a → (arrVal s a).data ≠ []) :
+    ∃ nt, ntOf s i = .ok nt := by
+  have ho : (s.sys i).atoms < s.objs.length := by
+    obtain ⟨⟨κ, hinv⟩, _⟩ := h
+    exact (hinv.syss _ (sys_mem s i hi)).1
+  obtain ⟨a, hf, hge⟩ := inv_atype_ge_one s h _ ho
+  obtain ⟨nums, hnums⟩ := mapM_num_total (arrVal s a).data (fun c hc => by
+    obtain ⟨q, hq, _⟩ := hge c hc; simp [hq])
+  have hlen := (mapM_option _ _ _ hnums).1
+  have hdat := hne a hf
+  unfold ntOf
+  rw [natypes_closed, hf]
+  simp only [hnums]
+  cases nums with
+  | nil =>
+    exfalso
+    apply hdat
+    exact List.eq_nil_of_length_eq_zero (by simpa using hlen.symm)
+  | cons x xs =>
+    have hmin : ∃ mn, listMin (x :: xs) = some mn := ⟨_, rfl⟩
+    obtain ⟨mn, hmn⟩ := hmin
+    have hnot := inv_natypes_min s h _ ho a (x :: xs) mn hf hnums hmn
+    have hmax : ∃ mx, listMax (x :: xs) = some mx := ⟨_, rfl⟩
+    obtain ⟨mx, hmx⟩ := hmax
+    rw [hmn, hmx]
+    simp only [hnot, if_false]
+    exact ⟨_, rfl⟩
+
+/-- the same for reachable states, packaged: every getter of every system over non-empty atoms replies
+    a padded tuple after any history and any sequence of reads. -/
+theorem reachable_observers_padded (ops obs : List Op) (hobs : ∀ o ∈ obs, IsObs o) (i : Nat)
+    (hi : i < (ops.foldl step init).syss.length)
+    (hne : ∀ a, ((ops.foldl step init).obj ((ops.foldl step init).sys i).atoms).find "atype" = some a →
+      (arrVal (ops.foldl step init) a).data ≠ []) :
+    ∃ (nt : Nat) (sy : List (Option String)) (ms : List (Option Rat)) (n : Nat),
+      ntOf (ops.foldl step init) i = .ok nt ∧
+      output (obs.foldl step (ops.foldl step init)) (.symbolsGet i) = .ok (.syms sy) ∧
+      output (obs.foldl step (ops.foldl step init)) (.massesGet i) = .ok (.masses ms) ∧
+      output (obs.foldl step (ops.foldl step init)) (.sysNatypes i) = .ok (.nat n) ∧
+      output (obs.foldl step (ops.foldl step init)) (.sysAtypes i) = .ok (.nats ((List.range n).map (· + 1))) ∧
+      nt ≤ sy.length ∧ nt ≤ ms.length ∧ nt ≤ n ∧ sy.length ≤ n ∧ n ≤ ms.length := by
+  obtain ⟨nt, hnt⟩ := inv_ntOf_ok _ (inv_reachable ops) i hi hne
+  obtain ⟨sy, ms, n, h1, h2, h3, h4, h5⟩ := observers_padded_any_order ops obs hobs i nt hi hnt
+  exact ⟨nt, sy, ms, n, hnt, h1, h2, h3, h4, h5⟩
+
 /-- what the getters return is also what they store: after reading `masses` the stored symbols and
     masses *are* the views (so the next read takes the no-padding branch). -/
 theorem massesGet_stores (s : State) (i nt : Nat) (hi : i < s.syss.length) (hnt : ntOf s i = .ok nt) :
